@@ -18,6 +18,8 @@ import traceback
 
 def main() -> None:
     args = json.loads(pathlib.Path(sys.argv[1]).read_text())
+    # as with `python -m safeds_stubgen.main`: the working directory is the first entry of the module search path
+    sys.path.insert(0, os.getcwd())
     rec: dict = {"writes": [], "warnings": [], "exit": "?", "exc": "", "frame": "", "msg": ""}
 
     orig_open = pathlib.Path.open
